@@ -214,8 +214,8 @@ def Inv (kvs : List (Str × Json)) : Prop := ∃ d, wfScope d kvs = true
 structure Safe (env : Env) (fuel : Nat) : Prop where
   from_ : ∀ kvs name data ctx r st, Inv kvs → defined kvs name = true →
     illFrom env fuel (.obj kvs) name data ctx r st = false
-  leave : ∀ kvs name state data ctx r st, Inv kvs → defined kvs name = true → leaveOk kvs state = true →
-    catchOk kvs state = true → illLeave env fuel (.obj kvs) name state data ctx r st = false
+  leave : ∀ kvs name state raw data ctx r st, Inv kvs → defined kvs name = true → leaveOk kvs state = true →
+    catchOk kvs state = true → illLeave env fuel (.obj kvs) name state raw data ctx r st = false
   err : ∀ kvs name state data ctx r e msg st, Inv kvs → defined kvs name = true → catchOk kvs state = true →
     illErr env fuel (.obj kvs) name state data ctx r e msg st = false
   state : ∀ kvs name state data ctx r st d, Inv kvs → defined kvs name = true → wfState d kvs state = true →
@@ -240,9 +240,9 @@ theorem safe_from (env : Env) (fuel : Nat) (ih : Safe env fuel) :
   exact ih.state _ _ _ _ _ _ _ d ⟨d, hw⟩ hd (wfScope_get hw hs)
 
 theorem safe_leave (env : Env) (fuel : Nat) (ih : Safe env fuel) :
-    ∀ kvs name state data ctx r st, Inv kvs → defined kvs name = true → leaveOk kvs state = true →
-      catchOk kvs state = true → illLeave env (fuel + 1) (.obj kvs) name state data ctx r st = false := by
-  intro kvs name state data ctx r st hI hd hl hc
+    ∀ kvs name state raw data ctx r st, Inv kvs → defined kvs name = true → leaveOk kvs state = true →
+      catchOk kvs state = true → illLeave env (fuel + 1) (.obj kvs) name state raw data ctx r st = false := by
+  intro kvs name state raw data ctx r st hI hd hl hc
   simp only [illLeave]
   by_cases hE : isTrue (fld state "End") = true
   · simp [hE]
@@ -282,7 +282,7 @@ theorem safe_join (env : Env) (fuel : Nat) (ih : Safe env fuel) :
     · exact ih.err _ _ _ _ _ _ _ _ _ hI hd hc
     · split
       · exact ih.err _ _ _ _ _ _ _ _ _ hI hd hc
-      · exact ih.leave _ _ _ _ _ _ _ hI hd hl hc
+      · exact ih.leave _ _ _ _ _ _ _ _ hI hd hl hc
 
 theorem safe_branches (env : Env) (fuel : Nat) (ih : Safe env fuel) :
     ∀ bs params ctx st d, (∀ b ∈ bs, wfBranch d b = true) →
@@ -342,7 +342,7 @@ theorem safe_state (env : Env) (hch : ChooseOK env) (fuel : Nat) (ih : Safe env 
   · have hl := F.leave_ok (by simp [h1, S_ne]) (by simp [h1, S_ne]) (by simp [h1, S_ne])
     simp only [h1, ↓reduceIte]
     repeat' split
-    all_goals first | rfl | exact hE _ _ _ | exact ih.leave _ _ _ _ _ _ _ hI hd hl hc
+    all_goals first | rfl | exact hE _ _ _ | exact ih.leave _ _ _ _ _ _ _ _ hI hd hl hc
   simp only [h1, ↓reduceIte]
   by_cases h2 : stateType state = S "Succeed"
   · simp only [h2, ↓reduceIte]
@@ -356,7 +356,7 @@ theorem safe_state (env : Env) (hch : ChooseOK env) (fuel : Nat) (ih : Safe env 
   · have hl := F.leave_ok (by simp [h4, S_ne]) (by simp [h4, S_ne]) (by simp [h4, S_ne])
     simp only [h4, ↓reduceIte]
     repeat' split
-    all_goals first | rfl | exact hE _ _ _ | exact ih.leave _ _ _ _ _ _ _ hI hd hl hc
+    all_goals first | rfl | exact hE _ _ _ | exact ih.leave _ _ _ _ _ _ _ _ hI hd hl hc
   simp only [h4, ↓reduceIte]
   by_cases h5 : stateType state = S "Choice"
   · have hco := F.choice_ok h5
@@ -377,7 +377,7 @@ theorem safe_state (env : Env) (hch : ChooseOK env) (fuel : Nat) (ih : Safe env 
     simp only [h6, ↓reduceIte]
     repeat' split
     all_goals first | rfl | exact hE _ _ _ | exact ih.err _ _ _ _ _ _ _ _ _ hI hd hc
-                    | exact ih.leave _ _ _ _ _ _ _ hI hd hl hc
+                    | exact ih.leave _ _ _ _ _ _ _ _ hI hd hl hc
   simp only [h6, ↓reduceIte]
   by_cases h7 : stateType state = S "Parallel"
   · have hl := F.leave_ok (by simp [h7, S_ne]) (by simp [h7, S_ne]) (by simp [h7, S_ne])
